@@ -27,6 +27,16 @@ Permute(a, perm) ==
   [A |-> [i \in 1..Len(a.A) |-> [j \in 1..Len(a.A) |-> a.A[perm[i]][perm[j]]]],
    dir |-> a.dir, w |-> [k \in 1..Len(a.A) |-> a.w[perm[k]]]]
 
+\* --- constructor paths: every one must realise the same abstract network
+Paths == {"dense_list", "ndarray", "csr", "csc", "coo", "lil", "dok", "edge_list", "edge_list_n",
+          "igraph", "copy", "undirected_copy", "graphml", "graphmlz", "pickle", "gml"}
+\* summary attributes as functions of the abstract network (w scaled by wden)
+NLinksDir(a) == Sum(LAMBDA i : Sum(LAMBDA j : a.A[i][j], 1..Len(a.A)), 1..Len(a.A))
+NLinks(a) == IF a.dir = 1 THEN NLinksDir(a) ELSE NLinksDir(a) \div 2
+TotalWeight(a) == Sum(LAMBDA i : a.w[i], 1..Len(a.A))
+IsSymmetric(A) == \A i \in 1..Len(A) : \A j \in 1..Len(A) : A[i][j] = A[j][i]
+EmptyDiagonal(A) == \A i \in 1..Len(A) : A[i][i] = 0
+
 \* --- agreement of observations (o = before, p = after); each observation has
 \* s: scalars, v: per-node vectors, m: per-pair matrices (scaled integers)
 Names(f, g) == DOMAIN f \cap DOMAIN g
